@@ -499,12 +499,16 @@ def build_lme(qt, algo_name, loss_name, flags, order, maxit, record=False, extra
     return algo, opt, L(qt.num_variables), LO("identity"), rec
 
 
+LAST = {"cap_warnings": 0}          # of the last run_lme: how often calc_proj_physical_with_var printed that it hit max_iteration_proj_physical
+
+
 def run_lme(qt, empi, algo_name, loss_name, flags, order, maxit, record=False, extra=None):
     Qm = q()
     algo, opt, loss, lopt, rec = build_lme(qt, algo_name, loss_name, flags, order, maxit, record, extra)
-    with quiet():
+    with quiet() as buf:
         res = Qm.LossMinimizationEstimator().calc_estimate(qt, empi, loss, lopt, algo, opt,
                                                            is_computation_time_required=True, is_detailed_results_required=True)
+    LAST["cap_warnings"] = buf.getvalue().count("projection iterations exceeds the limit")
     return res, res.detailed_results[0], algo, opt, loss, rec
 
 
@@ -585,6 +589,13 @@ def chk_estimate(ctx, case):
     nontriv = case["data"] != "exact" or case["truth"] != "interior"
     ctx.count("estimates", key=case["id"], nontrivial=nontriv, label="%s:%s:%s:%s:%s" % (kind, label, case["data"], "eq%d-ineq%d" % (int(flags[0]), int(flags[1])), case["order"]))
     bad, er, me = feasibility(ctx, est, B, flags, tol)
+    if bad and case["est"] == "lme" and LAST["cap_warnings"]:
+        # known finding C10-4: the Dykstra loop of the installed projection hit max_iteration_proj_physical (quara prints a warning) and handed back a
+        # point that is not physical; seen when momentum / FISTA keep iterating on a diverging relative-entropy run (non-default stopping modes)
+        ctx.violation("estimates", "QOperation.calc_proj_physical_with_var", "projection-cap-reached:estimate-not-physical",
+                      "%s m=%s %s para=%s flags=%s data=%s options=%s: the projection hit its iteration cap %d times during the run; the estimate violates %s "
+                      "(eq residual %.3e, min eigenvalue %.3e, tolerance %.1e)" % (kind, case.get("m"), label, para, flags, case["data"], case.get("opts"), LAST["cap_warnings"], bad, er, me, tol), case)
+        return
     if flags[0]:
         cal("eq_residual/s [%s]" % label.split("/")[0], er / s)
     if flags[1]:
@@ -691,9 +702,9 @@ def gen_estimate_cases(ctx):
                 for data, shots in datas:
                     if quick:
                         # the quick tier samples the grid (every run another sample; the thorough tier runs all of it)
-                        keep = 0.3 if small else (0.06 if heavy else 0.17)
+                        keep = 0.24 if small else (0.05 if heavy else 0.14)
                         if data == "exact" and algo == "bt":
-                            keep = 0.9 if small else (0.15 if heavy else 0.5)
+                            keep = 0.7 if small else (0.12 if heavy else 0.4)
                         if rng.random() >= keep:
                             continue
                     elif heavy and rng.random() >= 0.3:
@@ -710,8 +721,16 @@ def gen_estimate_cases(ctx):
                         maxit = max(maxit, 200)
                     add(kind=kind, sys=sysname, m=mo, para=para, truth=truth, data=data, shots=shots, est="lme", algo=algo, loss=loss,
                         order=rng.choice(["eq_ineq", "ineq_eq"]), flags=fl, maxit=maxit, nohist=rng.random() < 0.3)
-                    if data != "exact" and rng.random() < 0.3:          # other stopping modes / windows (exact-recovery tolerances are calibrated for the default)
-                        cases[-1]["opts"] = dict(mode=rng.choice(STOP_MODES), h=rng.choice([1, 2, 3]))
+                    if data != "exact" and rng.random() < 0.3 and (algo == "bt" or not quick):
+                        # other stopping modes / windows (exact-recovery tolerances are calibrated for the default).  Momentum / FISTA in a mode that does not
+                        # stop on a loss INCREASE can diverge with relative entropy, and then each projection runs into its cap (known finding C10-4; minutes
+                        # with the default cap): thorough tier only, with an explicit cap
+                        cases[-1]["opts"] = dict(mode=rng.choice(STOP_MODES), h=rng.choice([1, 2, 3]), cap=None if algo == "bt" else 3000)
+    if not quick:
+        # deterministic witness of known finding C10-4 (11 s)
+        add(kind="qmpt", sys="1qubit", m=3, para=False, truth="interior", data="fewshot", shots=10, est="lme", algo="mom", loss="wre", order="eq_ineq",
+            flags=[True, True], maxit=15, nohist=False, opts=dict(mode="sum_absolute_difference_projected_gradient", h=2, cap=3000), seed=20260926)
+        cases[-1]["id"] = "e337"
     return cases
 
 
@@ -1141,6 +1160,8 @@ def build_opts(case, qt, c_sys, rng):
         extra["mode_stopping_criterion_gradient_descent"] = o["mode"]
     if o.get("h"):
         extra["num_history_stopping_criterion_gradient_descent"] = o["h"]
+    if o.get("cap"):
+        extra["max_iteration_proj_physical"] = o["cap"]
     return extra, used
 
 
